@@ -22,7 +22,7 @@ import (
 
 type phase struct {
 	Burst  int `json:"burst"`
-	Mode   int `json:"mode"`   // 0 Take, 1 TakeWithTimeout(0), 2 TakeWithTimeout(-1ms), 3 TakeWithTimeout(1ns), 4 TakeWithTimeout(300us), 5 Poll, 6 <-GetChannel()
+	Mode   int `json:"mode"`   // 0 Take, 1 TakeWithTimeout(0), 2 TakeWithTimeout(-1ms), 3 TakeWithTimeout(1ns), 4 TakeWithTimeout(300us), 5 Poll, 6 <-GetChannel(), 7 receive from the channel GetChannel() returned BEFORE the burst
 	IdleUs int `json:"idleUs"` // pause after the phase
 }
 
@@ -36,7 +36,7 @@ type phasesCase struct {
 
 func (c phasesCase) String() string { b, _ := json.Marshal(c); return string(b) }
 
-var phaseModes = []string{"Take()", "TakeWithTimeout(0)", "TakeWithTimeout(-1ms)", "TakeWithTimeout(1ns)", "TakeWithTimeout(300us)", "Poll()", "<-GetChannel()"}
+var phaseModes = []string{"Take()", "TakeWithTimeout(0)", "TakeWithTimeout(-1ms)", "TakeWithTimeout(1ns)", "TakeWithTimeout(300us)", "Poll()", "<-GetChannel()", "a receive from the channel fetched before the burst"}
 
 func runPhases(c phasesCase) (key, msg string, inconclusive bool) {
 	schedMu.Lock()
@@ -49,6 +49,11 @@ func runPhases(c phasesCase) (key, msg string, inconclusive bool) {
 	next := 0
 	for pi, ph := range c.Phases {
 		first := next
+		early := q.GetChannel() // mode 7: the consumer holds on to this channel and makes no further call
+		if ph.Mode == 7 {
+			// let the loader pass that GetChannel() has triggered come and go before anything is offered
+			time.Sleep(time.Duration(c.LoaderUs)*time.Microsecond + 500*time.Microsecond)
+		}
 		for i := 0; i < ph.Burst; i++ {
 			if err := q.Offer(next); err != nil {
 				return "C07/error-value", fmt.Sprintf("phase %d: Offer(%d) = %v on an open queue with room", pi, next, err), false
@@ -83,6 +88,12 @@ func runPhases(c phasesCase) (key, msg string, inconclusive bool) {
 					v, err = q.TakeWithTimeout(300 * time.Microsecond)
 				case 5:
 					v, err = q.Poll()
+				case 7:
+					select {
+					case v = <-early:
+					case <-stop:
+						return
+					}
 				default:
 					select {
 					case v = <-q.GetChannel():
@@ -132,7 +143,8 @@ func runPhases(c phasesCase) (key, msg string, inconclusive bool) {
 
 var phasesDirected = []phasesCase{
 	{ChanCap: 1, NodePool: 1, FreeUs: 200, LoaderUs: 20, Phases: []phase{{30, 0, 1500}, {3, 6, 1500}, {10, 0, 1500}, {10, 5, 0}}},
-	{ChanCap: 2, NodePool: 2, FreeUs: 300, LoaderUs: 0, Phases: []phase{{7, 1, 0}, {7, 2, 800}, {20, 3, 800}, {5, 4, 0}}},
+	{ChanCap: 2, NodePool: 2, FreeUs: 300, LoaderUs: 0, Phases: []phase{{7, 1, 0}, {7, 2, 800}, {20, 3, 800}, {5, 4, 0}, {6, 7, 0}}},
+	{ChanCap: 1, NodePool: 3, FreeUs: 300, LoaderUs: 200, Phases: []phase{{5, 7, 0}, {9, 7, 500}}},
 }
 
 func TestPhasedBurstsRegress(t *testing.T) {
@@ -174,7 +186,7 @@ func TestPhasedBursts(t *testing.T) {
 			FreeUs: rapid.SampledFrom([]int{200, 400}).Draw(t, "freeUs"), LoaderUs: rapid.SampledFrom([]int{0, 20, 200}).Draw(t, "loaderUs")}
 		n := rapid.IntRange(2, 5).Draw(t, "phases")
 		for i := 0; i < n; i++ {
-			c.Phases = append(c.Phases, phase{Burst: rapid.IntRange(1, 40).Draw(t, "burst"), Mode: rapid.IntRange(0, 6).Draw(t, "mode"),
+			c.Phases = append(c.Phases, phase{Burst: rapid.IntRange(1, 40).Draw(t, "burst"), Mode: rapid.IntRange(0, 7).Draw(t, "mode"),
 				IdleUs: rapid.SampledFrom([]int{0, 0, 900, 1500}).Draw(t, "idleUs")})
 		}
 		vlib.S().Eval("phased-bursts")
